@@ -1995,7 +1995,7 @@ class Executor:
             return [(st, prims.arr_method(self, fv[1], fv[2], args, kwargs, st))]
         if isinstance(fv, tuple) and fv and fv[0] == 'bound':
             _, obj, meth = fv
-            c = self.registry.lookup_method(obj.cls, meth)
+            c = self.registry.lookup_method(obj.cls, meth, args=list(args))
             if c.kind == 'staticmethod':
                 return self.apply_contract(c, list(args), kwargs, st)
             return self.apply_contract(c, [obj] + list(args), kwargs, st)
